@@ -419,6 +419,12 @@ fn defs() -> Vec<WorldDef> {
         // announce 2 s, sync 0.25 s, delay requests 0.5 s (set in systems())
         WorldDef { name: "1p-e2e-intervals", ports: vec![(false, false)], slave_only: false, seed: vec![], obedient: true, rich: true, depth: (4, 6) },
         WorldDef { name: "1p-e2e-intervals-slave-seed", ports: vec![(false, false)], slave_only: false, seed: slave_seed.clone(), obedient: true, rich: true, depth: (3, 5) },
+        // announce 0.25 s, sync and delay requests 0.125 s (set in systems())
+        WorldDef { name: "1p-e2e-fast-intervals", ports: vec![(false, false)], slave_only: false, seed: vec![], obedient: true, rich: true, depth: (4, 6) },
+        WorldDef { name: "1p-e2e-fast-intervals-slave-seed", ports: vec![(false, false)], slave_only: false, seed: slave_seed.clone(), obedient: true, rich: true, depth: (3, 5) },
+        // the master is 254 steps away: the instance's own stepsRemoved is 255
+        WorldDef { name: "1p-e2e-far-master-slave-seed", ports: vec![(false, false)], slave_only: false, seed: slave_seed.clone(), obedient: true, rich: false, depth: (4, 6) },
+        WorldDef { name: "2p-e2e-far-master-slave-seed", ports: vec![(false, false), (false, false)], slave_only: false, seed: slave_seed.clone(), obedient: true, rich: false, depth: (3, 4) },
         WorldDef { name: "1p-e2e-slaveonly", ports: vec![(false, false)], slave_only: true, seed: vec![], obedient: true, rich: false, depth: (4, 6) },
         WorldDef { name: "2p-e2e", ports: vec![(false, false), (false, false)], slave_only: false, seed: vec![], obedient: true, rich: false, depth: (4, 5) },
         WorldDef { name: "2p-bc-seed", ports: vec![(false, false), (true, false)], slave_only: false, seed: vec![Ev::Ann(0, 0), Ev::Ann(0, 0), Ev::T(1, Timer::Receipt), Ev::Bmca], obedient: true, rich: false, depth: (3, 4) },
@@ -429,7 +435,16 @@ pub fn systems() -> Vec<(WorldSys<'static, LiveMon>, (usize, usize))> {
     let mut all = vec![];
     for (mon, tag) in [(&SILENCE, "silence"), (&BETTER, "better-master")] {
         for (mut s, d) in build("C12", mon, defs(), false) {
-            if s.name.contains("intervals") {
+            if s.name.contains("far-master") {
+                s.cfg.peers[0].steps_removed = 254;
+            }
+            if s.name.contains("fast-intervals") {
+                for p in &mut s.cfg.node.ports {
+                    p.log_announce = -2;
+                    p.log_sync = -3;
+                    p.log_delay = -3;
+                }
+            } else if s.name.contains("intervals") {
                 for p in &mut s.cfg.node.ports {
                     p.log_announce = 1;
                     p.log_sync = -2;
